@@ -14,6 +14,7 @@ import (
 	"regexp"
 	"strings"
 	"sync"
+	"sync/atomic"
 	"time"
 
 	"verif/fakecql"
@@ -66,9 +67,13 @@ type Client struct {
 	Quiet      bool // do not log to the tracer
 	LocalAddr  string
 	CompName   string
+	resumeAt   int64
 }
 
 var rawHeaderCodec = frame.NewRawCodec()
+
+// MaxBody is the largest frame body a client of this harness accepts (the largest any driver sends is 16 MiB).
+var MaxBody int32 = 64 << 20
 
 var nodeRe = regexp.MustCompile(`127\.0\.\d+\.\d+`)
 
@@ -139,10 +144,32 @@ func (c *Client) setCompression(name string) {
 	}
 }
 
+// PauseReads makes the client stop reading from its socket for d (a slow consumer: what the peer sends piles up in
+// the socket buffers and then in the peer).
+func (c *Client) PauseReads(d time.Duration) {
+	atomic.StoreInt64(&c.resumeAt, time.Now().Add(d).UnixNano())
+}
+
 func (c *Client) read() {
 	for {
+		for time.Now().UnixNano() < atomic.LoadInt64(&c.resumeAt) {
+			time.Sleep(5 * time.Millisecond)
+		}
 		// header decoding does not depend on the compression codec
-		raw, err := rawHeaderCodec.DecodeRawFrame(c.nc)
+		var raw *frame.RawFrame
+		hdr, err := rawHeaderCodec.DecodeHeader(c.nc)
+		if err == nil && (hdr.BodyLength < 0 || hdr.BodyLength > MaxBody) {
+			// not a frame any peer of this harness sends: the connection has lost its framing (reading on would allocate
+			// what the bogus header announces)
+			c.emit("ClientGarbage", "c", c.ID, "stream", int(hdr.StreamId), "len", int(hdr.BodyLength), "op", hdr.OpCode.String())
+			c.nc.Close()
+			err = fmt.Errorf("frame of %d bytes announced", hdr.BodyLength)
+		}
+		if err == nil {
+			var body []byte
+			body, err = rawHeaderCodec.DecodeRawBody(hdr, c.nc)
+			raw = &frame.RawFrame{Header: hdr, Body: body}
+		}
 		if err != nil {
 			c.mu.Lock()
 			c.closed = true
